@@ -125,11 +125,46 @@ def _patstr(pats):
     return "|".join(pp.short(p) if isinstance(p, str) else getattr(p, "__name__", "pred") for p in pats)
 
 
+_REACH = {}
+
+
+def _may_reach(ctx, pats):
+    """Production workspace functions from which a call matching `pats` is reachable (reverse BFS)."""
+    if isinstance(pats, str) or callable(pats):
+        pats = [pats]
+    key = (ctx.db.dir, tuple(p if isinstance(p, str) else id(p) for p in pats))
+    if key in _REACH:
+        return _REACH[key]
+    direct = set()
+    for fid, f in ctx.db.fns.items():
+        if callgraph.non_production(fid):
+            continue
+        if cfg.find_calls(f, pats):
+            direct.add(fid)
+    seen = set(direct)
+    stack = list(direct)
+    while stack:
+        x = stack.pop()
+        for cal in ctx.cg.callers(x):
+            if cal not in seen and not callgraph.non_production(cal):
+                seen.add(cal)
+                stack.append(cal)
+    _REACH[key] = seen
+    return seen
+
+
 def sink_blocks(ctx, fn, sink, rid):
     kind = sink[0]
     if kind == "call":
         bs = {b for b, _t in cfg.find_calls(fn, sink[1])}
         name = "call " + _patstr(sink[1])
+        if not bs:
+            # the sink call may have been moved into a helper: fall back to the calls of workspace
+            # functions from which the sink is reachable in the call graph (over-approximation)
+            reach = _may_reach(ctx, sink[1])
+            bs = {b for b, t in fn.calls() if any(cal in reach for cal, _k in ctx.cg.targets_of_call(t))}
+            if bs:
+                name += " (through a helper)"
     elif kind == "okret":
         bs = cfg.return_blocks(fn)
         name = "Ok return"
